@@ -993,10 +993,14 @@ def corpus_item(job):
 # driver
 
 TIERS = {
+    # The corpus of a tier is a deterministic function of the working tree (unit-test inputs, their tokens, these constants);
+    # the quick corpus is a subset of the thorough one (same boundary selection rule, smaller inputs), the quick kernel family
+    # a subset of the thorough family.  The budget can only OMIT mutants (counted in the evidence), never add texts;
+    # VERIF_C17_BUDGET=0 disables it.
     # kernel_size: all skeletons with <= this many nodes; kernel_t0: also with empty Text atoms (one size smaller)
     # mutant_bytes: texts of at most this many bytes get layout mutants; mutant_stride: every n-th token boundary
     "quick": {"kernel_size": 5, "kernel_t0": 4, "mutant_bytes": 32, "mutant_stride": 4, "budget_s": 420},
-    "thorough": {"kernel_size": 6, "kernel_t0": 5, "mutant_bytes": 120, "mutant_stride": 1, "budget_s": 3000},
+    "thorough": {"kernel_size": 6, "kernel_t0": 5, "mutant_bytes": 40, "mutant_stride": 4, "budget_s": 3000},
 }
 
 
@@ -1030,8 +1034,8 @@ def main2(tier, cfg, t0, setup, natpath):
     # budgets count from after the builds / MIR dump.  `budget_s`: mutants not started by then are left out (and counted in the
     # evidence as not covered); unit-test inputs and kernel documents are never left out: past 2x the budget the run is inconclusive
     t1 = time.time()
-    soft = t1 + cfg["budget_s"]
-    deadline = t1 + 2 * cfg["budget_s"]
+    soft = t1 + cfg["budget_s"] if cfg["budget_s"] > 0 else None
+    deadline = t1 + 2 * cfg["budget_s"] if cfg["budget_s"] > 0 else None
     rep = common.Reporter(PID)
     only = os.environ.get("VERIF_C17_ONLY", "")
 
@@ -1126,13 +1130,40 @@ def main2(tier, cfg, t0, setup, natpath):
         (len(uniq), len(corpus), len(uniq) - len([1 for c, _ in uniq if "~" not in c]), status, C["paths"], C["outputs"], C["sub_paths"], C["native_runs"], time.time() - tc))
 
     # ---- violations (all were reproduced natively in the workers)
+    q = TIERS["quick"]
+    quick_base = set(cid for cid, text in corpus if len(text) <= q["mutant_bytes"])
+    for v in kviol + cviol:
+        if v["layer"] == "kernel":
+            dd, _ = doc_from_wire(v["doc"].split())
+            nodes = doc_stats(dd)[0]
+            v["in_quick"] = nodes <= (q["kernel_t0"] if has_empty_text(dd) else q["kernel_size"])
+        else:
+            v["in_quick"] = "~" not in v["id"] or base_id(v["id"]) in quick_base
+    os.makedirs(os.path.join(common.WORK, "c17"), exist_ok=True)
+    with open(os.path.join(common.WORK, "c17", "violations-%s.json" % tier), "w") as f:
+        json.dump(kviol + cviol, f, indent=1, default=str)
+    known_keys = set(f_.get("key") for f_ in rep.known)
     for v in kviol + cviol:
         rep.violation(v["key"], v["what"], v)
+    # an obligation of a unit (kernel document / corpus text) that fails ONLY by open known findings is excluded from the
+    # proof count and listed; one that fails by anything else stays in `obligations` and is not discharged
+    per_unit = {}
+    for v in kviol + cviol:
+        unit = v["doc"] if v["layer"] == "kernel" else v["id"]
+        per_unit.setdefault((v["layer"], unit, obligation_of(v)), set()).add(v["key"])
+    excluded, excluded_by_key, failed_new = 0, {}, 0
+    for (_, _, _), keys in per_unit.items():
+        if keys <= known_keys:
+            excluded += 1
+            for k in keys:
+                excluded_by_key[k] = excluded_by_key.get(k, 0) + 1
+        else:
+            failed_new += 1
 
     # ---- vacuity
     need_k = ["layout-depends-on-width", "ifbreak-emitted-and-omitted", "line-break-emitted", "width>=2^31"] if docs else []
     need_c = ["layout-depends-on-width", "text-with-comment", "input-with-trailing-comma", "width>=2^31"] if uniq else []
-    if not rep.new and not rep.known_hit:
+    if not rep.new:
         for k in need_k:
             if not kwit.get(k):
                 raise Inconclusive("vacuity witness missing (kernel): " + k)
@@ -1142,10 +1173,15 @@ def main2(tier, cfg, t0, setup, natpath):
     if uniq and base_ok < 0.8 * len(corpus) and not os.environ.get("VERIF_C17_FILTER"):
         raise Inconclusive("only %d of the %d unit-test inputs went through the pipeline (%s)" % (base_ok, len(corpus), status))
 
-    obligations = K["obligations"] + C["obligations"]
-    discharged = K["discharged"] + C["discharged"]
+    total = K["obligations"] + C["obligations"]
+    obligations = total - excluded
+    discharged = total - excluded - failed_new
     cov = {
         "obligations": obligations, "discharged": discharged,
+        "obligations_excluded_as_open_known_findings": {"count": excluded, "by_key": excluded_by_key,
+                                                        "note": "obligation instances (one per kernel document / corpus text and obligation) that fail exactly by findings "
+                                                                "listed as open in known_findings.json; they are NOT claimed"},
+        "obligations_failed_by_new_violations": failed_new,
         "obligation_kinds": {
             "kernel (per document)": ["K1 no panic / overflow for any W", "K2 output = Text atoms in order, IfBreak contents optional, modulo blanks and line breaks, for every W",
                                       "K3 no line ends in a blank", "K4 path conditions cover all 2^32 widths"],
@@ -1176,7 +1212,8 @@ def main2(tier, cfg, t0, setup, natpath):
             "corpus_max_groups": max_groups, "corpus_max_paths_per_text": max_paths},
         "paths": K["paths"] + C["paths"] + C["sub_paths"], "queries": K["queries"] + C["queries"],
         "solver_time_s": round(K["solver_time"] + C["solver_time"], 2), "mir_blocks_executed": K["steps"] + C["steps"],
-        "kernel": K, "corpus": C,
+        "kernel": {("obligation_instances_incl_excluded" if k == "obligations" else k): x for k, x in K.items() if k != "discharged"},
+        "corpus": {("obligation_instances_incl_excluded" if k == "obligations" else k): x for k, x in C.items() if k != "discharged"},
         "native_validation_runs": K["native_runs"] + C["native_runs"],
         "vacuity_witnesses": sorted(["kernel:" + k for k in kwit] + ["corpus:" + k for k in cwit]),
         "known_findings_hit": [k for k, _ in rep.known_hit],
@@ -1200,6 +1237,25 @@ def main2(tier, cfg, t0, setup, natpath):
     log("[C17] %d obligations (%d discharged), %d paths, %d solver queries (%.1fs solver), %.1fs; new violations %d, known findings hit %d" %
         (obligations, discharged, cov["paths"], cov["queries"], cov["solver_time_s"], time.time() - t0, nviol, len(rep.known_hit)))
     return rep.exit_code()
+
+
+def obligation_of(v):
+    k = v["key"].split("/")
+    if v["layer"] == "kernel":
+        return "K1" if k[0] == "panic" else {"atoms": "K2", "trailing-blank": "K3"}.get(k[1] if len(k) > 1 else "", "K?")
+    return {"panic": "B1", "reparse": "B2", "tokens": "B3", "comments": "B3", "idempotence": "B4"}.get(k[0], "B?")
+
+
+def has_empty_text(d):
+    if d[0] == "T":
+        return len(d[1]) == 0
+    if d[0] == "C":
+        return any(has_empty_text(c) for c in d[1])
+    if d[0] == "N":
+        return has_empty_text(d[2])
+    if d[0] in ("G", "I"):
+        return has_empty_text(d[1])
+    return False
 
 
 def has_kind_sk(sk, kind):
